@@ -21,7 +21,7 @@ ASSUMPTIONS = [
     "mapped and lifted functions are total or raise Backtrack; repetition bodies always consume (non-consuming bodies make Many loop by design)",
     "JSON: no \\u escapes, no exponents, strings without quotes/backslashes, no empty string literal and no blank before ':' (the module calls itself 'primitive json parsing'; rejecting those is counted, not judged)",
     "tag language: one optional '!' per factor (a negation under a negation is parenthesised); bare regexes are followed by white space, as documented",
-    "a parse that runs longer than 20 s on an input of <= 6 characters is reported as non-termination",
+    "a grammar whose parses over all inputs of <= 6 characters take longer than 60 s in total is reported as non-termination (a watchdog thread records the witness and ends the shard, because the library swallows every exception raised inside a parse)",
 ]
 REACH = [
     "insights/parsr/__init__.py::Sequence.process",
@@ -320,30 +320,22 @@ def run_peg(spec, ctx):
     parsers = [("constructors", build(t, False)), ("operators", build(t, True))]
     acc = sum(1 for e in expected if e is not FAIL)
     ctx.count("grammars_compared")
-    old = signal.signal(signal.SIGALRM, _alarm)
-    try:
+    state = {"how": None, "input": None}
+    with ctx.hang_guard(60, "parser-did-not-terminate", lambda: {"term": t, "input": state["input"], "built_with": state["how"]}):
         for how, p in parsers:
+            state["how"] = how
             for s, exp in zip(ins, expected):
+                state["input"] = s
                 data = list(s) + [None]
                 c = P.Context(data)
-                signal.alarm(20)
                 try:
-                    try:
-                        got = p.process(0, data, c)
-                    except Hang:
-                        ctx.violation("parser-did-not-terminate", {"term": t, "input": s, "built_with": how})
-                        return True
-                    except Exception:
-                        got = FAIL
-                    try:
-                        val = ("ok", p(s))
-                    except Hang:
-                        ctx.violation("parser-did-not-terminate", {"term": t, "input": s, "built_with": how})
-                        return True
-                    except Exception:
-                        val = FAIL
-                finally:
-                    signal.alarm(0)
+                    got = p.process(0, data, c)
+                except Exception:
+                    got = FAIL
+                try:
+                    val = ("ok", p(s))
+                except Exception:
+                    val = FAIL
                 ctx.count("parses_compared", 2)
                 bad = None
                 if (exp is FAIL) != (got is FAIL):
@@ -358,8 +350,6 @@ def run_peg(spec, ctx):
                     ctx.violation(bad, {"term": t, "input": s, "built_with": how, "peg": (list(exp) if exp is not FAIL else "reject"),
                                         "process": (repr(got) if got is not FAIL else "reject"), "call": (repr(val[1]) if val is not FAIL else "reject")})
                     return True
-    finally:
-        signal.signal(signal.SIGALRM, old)
     return 0 < acc < len(ins)
 
 
